@@ -21,6 +21,10 @@ MUTANTS = [
     ("PdfOps.tla", "Block(p.Sig[j], Transpose(MS), MS, MAdd(c.Sig[i], MatMulT(MS, c.M[i])))", "Block(p.Sig[j], Transpose(MS), MS, MatMulT(MS, c.M[i]))", "MC_COND", "MC_C07_quick.cfg", "Inv_Transform"),
     ("MeasureOps.tla", "Combine(u, f, NumR(u) * R2, LAMBDA k : OuterI(k, R2), LAMBDA k : OuterJ(k, R2), full)",
      "Combine(u, f, NumR(u) * R2, LAMBDA k : OuterJ(k, NumR(u)), LAMBDA k : OuterI(k, NumR(u)), full)", "MC_C01", "MC_C01_quick.cfg", "Inv_Pointwise"),
+    # update() that also overwrites the last component (coherently, all fields): only the frame ACTION property sees it
+    ("PdfOps.tla", "UpdateIdx(s, idx, t) == MkSeq(Len(s), LAMBDA r : IF \\E k \\in 1..Len(idx) : idx[k] = r",
+     "UpdateIdx(s, idx, t) == MkSeq(Len(s), LAMBDA r : IF r = Len(s) /\\ ~(\\E k \\in 1..Len(idx) : idx[k] = r) THEN t[1] ELSE IF \\E k \\in 1..Len(idx) : idx[k] = r",
+     "MC_PDF", "MC_C12K_quick.cfg", "Prop_Frame"),
 ]
 
 
@@ -39,7 +43,8 @@ def spec_mutants():
             cmd = ["java", "-XX:+UseParallelGC", "-Xss512m", "-Xmx3g", "-cp", tlcrun.JAR, "tlc2.TLC", "-workers", "8",
                    "-metadir", os.path.join(wd, "meta"), "-noGenerateSpecTE", "-config", cfg, module + ".tla"]
             out = subprocess.run(cmd, cwd=wd, capture_output=True, text=True, timeout=900).stdout
-            m = re.search(r"Invariant (\w+) is violated", out) or re.search(r"The invariant of (\w+) is equal to FALSE", out)
+            m = (re.search(r"Invariant (\w+) is violated", out) or re.search(r"The invariant of (\w+) is equal to FALSE", out)
+                 or re.search(r"Action property (\w+) is violated", out))
             got = m.group(1) if m else None
             if got is None:
                 print(out[-1500:])
